@@ -61,8 +61,9 @@ def sh(cmd, timeout=600, cwd=None, env=None):
     return p.returncode, p.stdout, p.stderr
 
 
-def ensure_static_build(log=None) -> None:
-    """Build the static part of the Coq development (model + lemmas) under a lock."""
+def ensure_static_build(targets: list[str] | None = None) -> None:
+    """Build (under a lock) the static .vo files a property needs: `targets` are paths relative to
+    /verif/coq such as theories/Lemmas/ConfigL.vo (None: everything in _CoqProject)."""
     WORK.mkdir(exist_ok=True)
     with open(WORK / 'build.lock', 'w') as lock:
         fcntl.flock(lock, fcntl.LOCK_EX)
@@ -72,7 +73,7 @@ def ensure_static_build(log=None) -> None:
             rc, out, err = sh(['coq_makefile', '-f', '_CoqProject', '-o', 'Makefile'], cwd=COQ)
             if rc:
                 raise RuntimeError('coq_makefile failed: ' + err)
-        rc, out, err = sh(["make", "-j6"], cwd=COQ, timeout=3000)
+        rc, out, err = sh(["make", "-j6"] + list(targets or []), cwd=COQ, timeout=3000)
         if rc:
             raise Tie('static Coq build failed:\n' + (out + err)[-3000:])
 
@@ -264,6 +265,7 @@ class PropertyCheck:
 
     id = 'C00'
     props: list[str] = []  # files under coq/theories/Props compiled on every run
+    static_targets: list[str] | None = None  # e.g. ['theories/Lemmas/ConfigL.vo'] (None: all)
     coq_header = ''  # imports for model evaluation
     partial: str | None = None  # unproved clause, if the property is only partially proved
     trusted: list[str] = []  # property-specific trusted base
